@@ -5,6 +5,8 @@ use std::io::SeekFrom;
 use std::pin::Pin;
 use std::rc::Rc;
 use std::task::{Context, Poll};
+use std::time::{Duration, Instant};
+use yash_env::system::concurrency::Sleep as _;
 use yash_env::builtin::{Builtin, Type};
 use yash_env::io::Fd;
 use yash_env::job::Pid;
@@ -126,6 +128,9 @@ fn run_feed(script: &[u8], data: &[u8], feed: &Feed) -> Outcome {
                         let shell = st.processes.get_mut(&env.main_pid).unwrap();
                         let _old = shell.set_fd(Fd::STDIN, body);
                     }
+                    if state.borrow().now.is_none() {
+                        state.borrow_mut().now = Some(Instant::now());
+                    }
                     TOTAL.set(script.len());
                     UNWRITTEN.set(script.len());
                     let conc = Rc::new(Concurrent::new(wsys));
@@ -136,8 +141,8 @@ fn run_feed(script: &[u8], data: &[u8], feed: &Feed) -> Outcome {
                         while pos < script.len() {
                             let n = sizes[k % sizes.len()].clamp(1, 512).min(script.len() - pos);
                             k += 1;
-                            for _ in 0..yields {
-                                YieldNow(false).await;
+                            if yields > 0 {
+                                conc2.sleep(Duration::from_millis(yields as u64)).await;
                             }
                             if conc2.write_all(w, &script[pos..pos + n]).await.is_err() {
                                 break;
@@ -145,8 +150,8 @@ fn run_feed(script: &[u8], data: &[u8], feed: &Feed) -> Outcome {
                             pos += n;
                             UNWRITTEN.set(script.len() - pos);
                         }
-                        for _ in 0..yields {
-                            YieldNow(false).await;
+                        if yields > 0 {
+                            conc2.sleep(Duration::from_millis(yields as u64)).await;
                         }
                         conc2.close(w).ok();
                     };
